@@ -91,21 +91,32 @@ func gid() int64 {
 	return v
 }
 
-// blockedInSelect reports whether goroutine g is parked in a select statement
+// allParked reports whether every goroutine of gs that still exists is parked
+// in a select or a channel receive, and at least one of them in a select
 // (scheduler state, not timing).
-func blockedInSelect(g int64) bool {
-	if g <= 0 {
+func allParked(gs []int64) bool {
+	if len(gs) == 0 {
 		return false
 	}
 	buf := make([]byte, 1<<20)
 	n := runtime.Stack(buf, true)
-	head := []byte(fmt.Sprintf("goroutine %d [", g))
-	i := bytes.Index(buf[:n], head)
-	if i < 0 {
-		return false
+	inSelect := false
+	for _, g := range gs {
+		head := []byte(fmt.Sprintf("goroutine %d [", g))
+		i := bytes.Index(buf[:n], head)
+		if i < 0 {
+			continue // gone
+		}
+		rest := buf[i+len(head) : n]
+		switch {
+		case bytes.HasPrefix(rest, []byte("select")):
+			inSelect = true
+		case bytes.HasPrefix(rest, []byte("chan receive")):
+		default:
+			return false
+		}
 	}
-	rest := buf[i+len(head) : n]
-	return bytes.HasPrefix(rest, []byte("select"))
+	return inSelect
 }
 
 // ---------------------------------------------------------------- instrumented context
@@ -131,6 +142,20 @@ type PCtx struct {
 	onErr    func(live bool)
 	errCalls int
 	hideDone bool
+	doneGids map[int64]bool // goroutines that asked for Done(): the channel's goroutines for this handler
+}
+
+func (c *PCtx) goroutines() []int64 {
+	c.mu.Lock()
+	defer c.mu.Unlock()
+	out := make([]int64, 0, len(c.doneGids)+1)
+	for g := range c.doneGids {
+		out = append(out, g)
+	}
+	if c.bGid != 0 && !c.doneGids[c.bGid] {
+		out = append(out, c.bGid)
+	}
+	return out
 }
 
 // Cancel cancels the context; a concurrent logged Err() read is either
@@ -164,6 +189,13 @@ func (c *PCtx) park(point string) {
 // Done is called by the lifecycle goroutine once and by the processing
 // goroutine before every select.
 func (c *PCtx) Done() <-chan struct{} {
+	g0 := gid()
+	c.mu.Lock()
+	if c.doneGids == nil {
+		c.doneGids = map[int64]bool{}
+	}
+	c.doneGids[g0] = true
+	c.mu.Unlock()
 	if c.isForced() {
 		g := gid()
 		c.mu.Lock()
@@ -304,6 +336,15 @@ var pointPC = map[string]string{"sel": "select", "errpre": "dequeued", "errpost"
 func ReplayBcast(t *testing.T, rep *Report, tg BcastTarget, cases []V) {
 	long := 30 * time.Second
 	raceWait := time.Duration(IntEnv("VERIF_PARK_MS", 150)) * time.Millisecond
+	if !chkCalibrated(t, tg) {
+		// The replay holds the processing goroutine at its ctx.Err() read between dequeue and
+		// handler. An implementation that does not make exactly that read cannot be stepped
+		// this way; it is judged by the recorded runs and the forcing scenarios instead.
+		rep.Count("replay_not_applicable", len(cases))
+		rep.Note("%s: the implementation does not read ctx.Err() exactly once after each dequeue; forced replay skipped", tg.Name)
+		rep.Eval("", map[string]interface{}{"target": tg.Name, "replay": "not applicable"})
+		return
+	}
 	for ci, c := range cases {
 		if c.Get("lifecycle").Str() != tg.Lifecycle {
 			t.Fatalf("behaviour generated for lifecycle %q replayed on %s", c.Get("lifecycle").Str(), tg.Name)
@@ -663,7 +704,7 @@ func mrec(s string, n uint64) map[string]interface{} {
 }
 
 // calibrateChk finds out whether the implementation asks ctx.Err() exactly
-// once for every message it takes from a handler's queue. Only then are the
+// once for every message it takes from a handler's queue, after taking it. Only then are the
 // reads recorded as Chk events (the trace specification then takes Dequeue and
 // CheckCtx at that event instead of guessing where they happened).
 func calibrateChk(t *testing.T, tg BcastTarget) bool {
@@ -679,10 +720,18 @@ func calibrateChk(t *testing.T, tg BcastTarget) bool {
 		got <- n
 	})
 	for i := 1; i <= 3; i++ {
+		// the handler's goroutines are parked, nothing is queued: a ctx.Err() read that
+		// belongs to the next message can only come after that message was queued
+		if !Eventually(30*time.Second, func() bool { return rig.QueueLen(p) == 0 && allParked(p.goroutines()) }) {
+			return false
+		}
+		p.mu.Lock()
+		before := p.errCalls
+		p.mu.Unlock()
 		rig.SimSend("s3", fmt.Sprintf("c%d", i))
 		select {
 		case n := <-got:
-			if n != i {
+			if n != before+1 {
 				return false
 			}
 		case <-time.After(30 * time.Second):
@@ -690,6 +739,17 @@ func calibrateChk(t *testing.T, tg BcastTarget) bool {
 		}
 	}
 	return true
+}
+
+func chkCalibrated(t *testing.T, tg BcastTarget) bool {
+	chkCalMu.Lock()
+	defer chkCalMu.Unlock()
+	chk, ok := chkCal[tg.Name]
+	if !ok {
+		chk = calibrateChk(t, tg)
+		chkCal[tg.Name] = chk
+	}
+	return chk
 }
 
 type bcastRun struct {
@@ -711,13 +771,7 @@ var chkCal = map[string]bool{}
 var chkCalMu sync.Mutex
 
 func newBcastRun(t *testing.T, tg BcastTarget, real, sim []string) *bcastRun {
-	chkCalMu.Lock()
-	chk, ok := chkCal[tg.Name]
-	if !ok {
-		chk = calibrateChk(t, tg)
-		chkCal[tg.Name] = chk
-	}
-	chkCalMu.Unlock()
+	chk := chkCalibrated(t, tg)
 	return &bcastRun{chk: chk, t: t, tg: tg, rig: tg.NewRig(t, real, sim), rec: &bcastRec{}, ctxs: map[string]*PCtx{},
 		inv: map[string][]BcastMsg{}}
 }
@@ -865,13 +919,11 @@ func (r *bcastRun) fence(live []string) {
 			}
 			nextProbe = time.Now().Add(20 * time.Millisecond)
 			// The closing message was put into the queue before send returned. If the queue is
-			// empty and the processing goroutine is parked in its select, everything that was in
-			// the queue has been processed: the closing message was consumed without reaching
-			// the handler (no timing involved: this is the scheduler's state of the goroutine).
-			p.mu.Lock()
-			g := p.bGid
-			p.mu.Unlock()
-			if g != 0 && r.rig.QueueLen(p) == 0 && blockedInSelect(g) && !r.sawInvoke(h, "f", n) {
+			// empty and the channel's goroutines for this handler are all parked (one of them in a
+			// select), everything that was in the queue has been processed - or nothing was ever
+			// put there: the closing message did not reach the live handler (no timing involved:
+			// this is the scheduler's state of the goroutines).
+			if r.rig.QueueLen(p) == 0 && allParked(p.goroutines()) && !r.sawInvoke(h, "f", n) {
 				lost = true
 				return true
 			}
@@ -1164,6 +1216,42 @@ func ForceBcast(t *testing.T, rep *Report, tg BcastTarget, tr *Tracer, reps int)
 		r.directDuplicateCheck(rep, "forcing")
 		rep.Eval(tg.Name+":forcing", map[string]interface{}{"target": tg.Name, "scenario": "forcing"})
 		r.finish(tr, rep, "forcing")
+	}
+}
+
+// IdleCancelBcast: the handler's goroutine is parked in its select with nothing
+// queued, the context is cancelled and cancel has returned, then a message is
+// published: it must never reach the handler (its select finds the cancelled
+// context and, possibly, the message; whichever it takes, the handler must not
+// be called).
+func IdleCancelBcast(t *testing.T, rep *Report, tg BcastTarget, tr *Tracer, reps int) {
+	for i := 0; i < reps; i++ {
+		r := newBcastRun(t, tg, nil, []string{"s3", "f"})
+		r.register("h1")
+		r.register("h2")
+		n1 := r.send("s3", true, "one")
+		if !Eventually(60*time.Second, func() bool { return r.sawInvoke("h1", "s3", n1) && r.sawInvoke("h2", "s3", n1) }) {
+			t.Fatalf("%s: first message never reached the handlers", tg.Name)
+		}
+		r.mu.Lock()
+		p := r.ctxs["h1"]
+		r.mu.Unlock()
+		// wait until the goroutine of h1 is back in its select (scheduler state)
+		if !Eventually(60*time.Second, func() bool { return r.rig.QueueLen(p) == 0 && allParked(p.goroutines()) }) {
+			t.Fatalf("%s: goroutine of h1 did not come to rest", tg.Name)
+		}
+		r.cancel("h1")
+		n2 := r.send("s3", true, "two")
+		r.fence([]string{"h2"})
+		time.Sleep(time.Duration(IntEnv("VERIF_SETTLE_MS", 20)) * time.Millisecond)
+		if r.sawInvoke("h1", "s3", n2) {
+			rep.Diverge("after-cancel-idle:"+tg.Name,
+				fmt.Sprintf("%s: a handler whose context had been cancelled (cancel had returned) while it was waiting for messages was handed a message published afterwards", tg.Name),
+				map[string]interface{}{"repetition": i}, "message 2 never handed to the handler", "handed")
+		}
+		r.directDuplicateCheck(rep, "idle-cancel")
+		rep.Eval(tg.Name+":idle-cancel", map[string]interface{}{"target": tg.Name, "scenario": "idle-cancel"})
+		r.finish(tr, rep, "idle-cancel")
 	}
 }
 
